@@ -308,7 +308,7 @@ var clauseKeywords = map[string]bool{
 	"requires": true, "ensures": true, "establishes": true, "modifies": true, "loop": true, "at": true,
 	"property": true, "nopanic": true, "reveal": true, "pure": true, "func": true,
 	"ghost": true, "lemma": true, "axiom": true, "extern": true, "fresh": true,
-	"maypanic": true, "inline": true, "bounded": true, "opaque": true,
+	"maypanic": true, "inline": true, "bounded": true, "opaque": true, "pathflag": true,
 }
 
 func (p *parser) parseExpr(minPrec int) (Expr, error) {
@@ -843,6 +843,9 @@ func (p *parser) parseClauses(fc *FuncContract) error {
 		case "fresh":
 			p.next()
 			fc.Fresh = true
+		case "pathflag": // pathflag <name>: a ghost Boolean of this activation, false at entry, set by `at call .. mark`
+			p.next()
+			fc.Clauses = append(fc.Clauses, &Clause{Kind: "pathflag", Label: p.next().s})
 		case "maypanic":
 			p.next()
 			fc.MayPanic = true
@@ -982,6 +985,11 @@ func (p *parser) parseClauses(fc *FuncContract) error {
 				if err != nil {
 					return err
 				}
+			}
+			if p.isID("mark") { // at call <label> mark <pathflag>: the flag becomes true when this call is reached
+				p.next()
+				fc.Clauses = append(fc.Clauses, &Clause{Kind: "mark", Call: label, Except: except, After: after, Label: p.next().s})
+				continue
 			}
 			if !p.isID("assert") {
 				return p.errf("expected assert")
